@@ -736,7 +736,7 @@ type treeGen struct {
 	consts map[string]float64
 }
 
-var keyPool = [][]int{{97}, {98}, {99}, {100}, {107, 49}, {233}, {}, {120, 32, 121}, {65}, {95}, {34}, {60}, {8232}, {122, 122}}
+var keyPool = [][]int{{97}, {98}, {99}, {100}, {107, 49}, {233}, {}, {120, 32, 121}, {65}, {95}, {34}, {60}, {8232}, {122, 122}, {116, 111, 74, 83, 79, 78}, {116, 111, 74, 83, 79, 78}}
 
 func (g *treeGen) str() []int {
 	units := make([]int, g.rng.Intn(5))
@@ -806,14 +806,14 @@ func (g *treeGen) gen(depth int) (string, any) {
 		n := g.rng.Intn(4)
 		var sb strings.Builder
 		members := []any{}
-		used := map[int]bool{}
+		used := map[string]bool{}
 		sb.WriteByte('{')
 		for i := 0; i < n; i++ {
 			ki := g.rng.Intn(len(keyPool))
-			if used[ki] {
+			if used[fmt.Sprint(keyPool[ki])] {
 				continue
 			}
-			used[ki] = true
+			used[fmt.Sprint(keyPool[ki])] = true
 			if len(members) > 0 {
 				sb.WriteByte(',')
 			}
